@@ -55,7 +55,9 @@ ASSUMPTIONS = [
     "these three accessors are read-only (they return stored attributes)",
     "canonical state = observations + unit-exponent table + Python types of stored numbers + sharing pattern of the "
     "Magnitude/BaseUnits/dict/array objects in the pool: everything Quantity methods read from their operands",
-    "operands are built through the public constructor for every history; nothing is deep-copied",
+    "operands are built through the public constructor for every history; nothing is deep-copied; computing the "
+    "canonical state prints the unit exponents, which lets the library normalise its Fraction objects in place "
+    "(value-preserving, the library does the same whenever it prints or converts a unit)",
     "sharing is judged by its effect through the in-place methods named in the statement, not structurally",
 ]
 
@@ -424,7 +426,7 @@ def run_shard(desc):
             seen.add(s1)
             frontier.append(([op1], len(pool)))
     depth = 3 if tier == "thorough" else 2
-    leaves = set()
+    nleaves = 0
     only = os.environ.get("C07_POOLS")                  # development aid: restrict the run to some pools
     if only and pname not in only.split(","):
         depth = 1
@@ -441,8 +443,8 @@ def run_shard(desc):
                 s = canon(pname, pool)
                 if level <= 2:
                     sh.add_to_set("states", s)          # merged over all shards: exact number of distinct states
-                else:
-                    leaves.add(s)                       # level-3 states are only de-duplicated inside the shard
+                elif s not in seen:
+                    nleaves += 1                        # level-3 states are only de-duplicated inside the shard
                 if shares_units_object(pool, n0):
                     sh.count("info:state-with-shared-units-object")
                 if s not in seen:
@@ -452,7 +454,7 @@ def run_shard(desc):
                         sh.sample(dict(pool=pname, history=h))
         frontier = nxt
     if depth == 3:
-        sh.add_extra("level3_states_counted_per_shard", len(leaves - seen))
+        sh.add_extra("level3_states_counted_per_shard", nleaves)
     if depth == 2:
         sh.add_extra("level3_transitions_left_to_thorough",
                      sum(len(alphabet(pname, n, probe=True)) for _, n in frontier))
